@@ -83,6 +83,13 @@ def check(ck):
               init[0] if init else s.node, construct="serial:dict")
     with ck.rule("R3"):
         asyncrules.check_structured_concurrency(ck, repo, ("tartiflette/coercers/", "tartiflette/execution/", "tartiflette/resolver/", "tartiflette/utils/"))
+        asyncrules.check_field_execution_gathers(ck, repo)
+        # a failing nullable root field yields null and the loop goes on: the failure funnel (C02.R1/R2) and
+        # the placement of argument coercion inside the field's own try (C05.R2) are C09 obligations too
+        from . import c02, c05
+        c02.r1(ck, repo)
+        c02.r2(ck, repo)
+        c05.field_funnel(ck, repo)
         rf = repo.func(EXE, "resolve_field")
         rv = FuncView(rf)
         c = rv.maybe_call("resolver")
